@@ -335,6 +335,11 @@ def contains(eng, container, item):
         cs = SymStr.of(container)
         if it.fixed and it.n == 1:
             return V.str_any(cs, lambda c: z_eq(c, it.chars[0]))
+        if it.fixed:
+            # a fixed-length needle somewhere in the string: one disjunct per start position
+            k = it.n
+            if k == 0: return True
+            return z_or(*[z_and(V._le(p + k, cs.n), *[z_eq(cs.chars[p + j], it.chars[j]) for j in range(k)]) for p in range(cs.cap - k + 1)])
         raise Unsupported('substring test on symbolic strings')
     if isinstance(container, NVec):
         return z_or(*[equals(eng, x, item) for x in container.items])
